@@ -237,7 +237,7 @@ def _concrete_case(env, conc):
     ra = info.sig._d['_return_annotation']
     import inspect
     ret = conc.val(ra.val) if conc.boolean(ra.has) else inspect.Signature.empty
-    fn = make_function(specs, 'f', ret)
+    fn = make_function(specs, 'f', ret, postponed_globals=conc.postponed_env(info))
     if env['mode'] == 'plain':
         return fn, fn, None, None
     n = conc.integer(env['n'])
